@@ -157,7 +157,7 @@ def generate(ctx, stride_raw, one_guarded):
            " MaxBuckets = 3", " BumpSizes <- SmallSizes", f" Depth = {depth}",
            "INVARIANTS Emit", "CHECK_DEADLOCK FALSE"]
     d = gen_module(ctx, "gen", name, "MC_AllocGen", cfg)
-    num = 350 if quick else 3000
+    num = 350 if quick else 1000
     res = vp.tlc(d, name, workers=4, timeout=900, simulate=f"num={num}", libs=["data"],
                  extra=["-depth", str(depth + 3), "-seed", str(ctx.seed)])
     vp.record_tlc(ctx, f"AllocGen[simulate num={num}x4 depth={depth}]", res, count=False)
@@ -205,7 +205,7 @@ def validate(ctx, module, path, label, cfg=None):
 def report_trace(ctx, v, path, label, signature_prefix):
     recs = vp.read_ndjson(path)
     st = last_state(v.res)
-    pos, rec = (v.pos, v.record) if v.pos else rec_of_state(recs, st)
+    pos, rec = rec_of_state(recs, st) if v.invariant else (v.pos, v.record)
     run, rel = vp.run_containing(recs, pos) if pos else (recs[:40], 0)
     clause = v.invariant or "unexplained-event"
     ctx.report(vp.Violation(
@@ -295,7 +295,7 @@ def run(ctx):
 
     # ---- 3. impl -> spec: seeded random histories on layouts outside the bounded instance
     rn = {c: ctx.path("traces", f"random_{c}.ndjson") for c in ("main", "awk", "tight")}
-    _, so, _ = vp.run_driver("drv-alloc", ["random", "--runs", 360 if quick else 3000, "--ops", 50 if quick else 70,
+    _, so, _ = vp.run_driver("drv-alloc", ["random", "--runs", 360 if quick else 1500, "--ops", 50 if quick else 70,
                                           "--out", rn["main"], "--out-awk", rn["awk"], "--out-tight", rn["tight"]],
                              timeout=900, env={"VERIF_SEED": ctx.seed})
     rs = vp.last_json_line(so)
